@@ -69,3 +69,12 @@ Theorem C04_entry_points_register_exactly_what_they_are_handed :
        end)
   /\ (forall a b, gen_add_module_targets (a ++ b) = gen_add_module_targets a ++ gen_add_module_targets b).
 Proof. exact (conj add_module_targets_exact (conj imported_targets_exact add_module_targets_multiplicity)). Qed.
+
+(* ... and in the core such a registration gives the function its OWN entry as soon as its (padded) code brings one
+   line hash the profiler has not seen (partial: when NOP paddings collide after re-registrations no hash is new -
+   the known finding C04-padding-collision-after-reregistration) *)
+Theorem C04_registration_creates_entry_partial :
+  forall codes st cb ca,
+    (exists l, In l (c_lines (nth_code codes ca)) /\ mem (cmap st) (LH (c_hash (nth_code codes ca)) l) = false) ->
+    mem (chm (add_function codes st cb ca)) ca = true.
+Proof. exact registration_creates_entry. Qed.
